@@ -37,13 +37,21 @@ def _load_pinned():
                 if not l.strip():
                     continue
                 parts = l.split('\t')
-                meta[parts[0]] = (parts[1].split(',') if len(parts) > 1 and parts[1] else [], int(parts[2]) if len(parts) > 2 else 0)
+                meta[parts[0]] = (parts[1].split(',') if len(parts) > 1 and parts[1] else [], int(parts[2]) if len(parts) > 2 else 0,
+                                  parts[3].split(',') if len(parts) > 3 and parts[3] else [])
         _PINNED, _PINNED_META = set(meta), meta
 
 
 def pinned_functions():
     _load_pinned()
     return _PINNED
+
+
+def pinned_callers(fq):
+    """the functions that called `fq` in the reference layout"""
+    _load_pinned()
+    m = _PINNED_META.get(fq)
+    return list(m[2]) if m else []
 
 
 def undo_renames(modules, log=None):
@@ -67,7 +75,7 @@ def undo_renames(modules, log=None):
             if not missing or not new:
                 continue
             for old in missing:
-                params, size = _PINNED_META[prefix + old]
+                params, size = _PINNED_META[prefix + old][:2]
                 cands = []
                 for n in new:
                     d = present[n]
